@@ -191,6 +191,12 @@ pub fn check_case(c: &XzCase, prop: &str, rep: &mut Report) -> bool {
             let mut g = f.clone();
             g.backward = Some(0xFFFF_FFFF);
             lay = g.serialize();
+        } else if let Some(bit) = x.strip_prefix("backward-alias") {
+            // the true value with one high bit set (what "(backward << 2) + 4" in 32 bits maps back to the true size)
+            let bit: u32 = bit.parse().unwrap_or(30);
+            let mut g = f.clone();
+            g.backward = Some((lay.index_size / 4 - 1) as u32 | (1 << bit));
+            lay = g.serialize();
         }
     }
     if c.mutation.f != "none" && c.extra.is_none() {
@@ -379,7 +385,7 @@ pub fn replay_export(path: &str, prop: &str, seed: u64, limit: usize, rep: &mut 
         // values TLC's integers cannot hold
         if prop == "C06" && c.mutation.f == "backward" && n % 7 == 0 {
             let mut c2 = c.clone();
-            c2.extra = Some("backward-allones".into());
+            c2.extra = Some(["backward-allones", "backward-alias30", "backward-alias31"][n / 7 % 3].into());
             c2.accept = false;
             check_case(&c2, prop, rep);
         }
